@@ -50,9 +50,13 @@ func (w *WaterMark) Init(closer *Closer) {
 }
 
 // Begin sets the last index to the given value.
+// The pending count is registered before the index is published through
+// lastIndex: tryAdvance only looks at indices <= lastIndex, so a concurrent
+// advance can never find the slot of an index that is being begun still empty.
 func (w *WaterMark) Begin(index uint64) {
-	w.setLastIndex(index)
 	w.addIndex(index, 1)
+	w.setLastIndex(index)
+	w.tryAdvance()
 }
 
 // BeginMany works like Begin but accepts multiple indices.
@@ -60,10 +64,11 @@ func (w *WaterMark) BeginMany(indices []uint64) {
 	if len(indices) == 0 {
 		return
 	}
-	w.setLastIndex(indices[len(indices)-1])
 	for _, idx := range indices {
 		w.addIndex(idx, 1)
 	}
+	w.setLastIndex(indices[len(indices)-1])
+	w.tryAdvance()
 }
 
 // Done sets a single index as done.
